@@ -249,6 +249,11 @@ def x_module_table(self, st, node, mod, _depth=0):
                 return KeyError
             items.append((kk, vv))
         return st.alloc(HObj("dict", kind="dict", items=items))
+    if isinstance(node, ast.Attribute) and isinstance(node.value, (ast.Name, ast.Attribute)):
+        rb = self.ix.resolve_expr(mod, node.value)
+        if isinstance(rb, ClassInfo) and rb.is_enum and node.attr in rb.class_consts and not node.attr.startswith("_"):
+            a2 = _enum_canonical(rb, node.attr)
+            return EnumVal(rb.name, a2, rb.enum_members.get(a2))        # Status.passed in a table
     if isinstance(node, (ast.Name, ast.Attribute)):
         r = self.ix.resolve_expr(mod, node)
         if isinstance(r, (ClassInfo, FuncInfo)):
@@ -1343,6 +1348,16 @@ def get_item(self, st, base, idx, node):
                         return [(st, "val", v)]
                 if isinstance(idx, Top):
                     return [(st, "val", Top("dict[%s]" % idx.tag, idx.input))]
+                factory = o.fields.get("@default_factory")
+                if factory is not None:
+                    # collections.defaultdict: the missing value is made, stored and returned
+                    res = []
+                    for (s2, k2, v2) in _abscall.apply(self, st, factory, [], {}, node):
+                        if k2 == "val":
+                            w = s2.wobj(base)
+                            w.items = list(w.items) + [(idx, v2)]
+                        res.append((s2, k2, v2))
+                    return res
                 return self.raise_exc(st, "KeyError", node, "key", "missing key %r" % (idx,))
             kk = ("k", vkey(idx))
             if kk in o.fields:
